@@ -30,8 +30,13 @@ let main_cases file =
     let toks = ref (List.filter (fun s -> s <> "") (String.split_on_char ' ' (String.trim line))) in
     let next () = match !toks with [] -> failwith "short case" | t :: r -> toks := r; int_of_string t in
     (try
-      let p = next () in let twocode = next () in let ign = next () = 1 in let incself = next () = 1 in
-      let mode = next () in let _seed = next () in let ign2 = next () = 1 in let resize = next () in
+      let p = next () in let twocode = next () in let ign = next () = 1 in let inctok = next () in
+      (* inctok: 0/1 uniform includeSelf, >= 2: per rank, bit r of (inctok-2).  mode token: (ring|neighbour) + 2*communicator kind
+         + 8*pre; the case is numbered by the ranks in its communicator, and a re-targeted object equals a fresh one
+         (C04_retarget_as_fresh), so neither changes what the model computes *)
+      let incs = List.init p (fun r -> if inctok >= 2 then ((inctok - 2) lsr r) land 1 = 1 else inctok = 1) in
+      let incself = inctok = 1 in
+      let mode = (next ()) land 1 in let _seed = next () in let ign2 = next () = 1 in let resize = next () in
       (* twocode: 0 = every rank one index-set object, 1 = every rank two, >= 2: mixed, bit r of (twocode-2) = rank r has two *)
       let two = twocode <> 0 in
       let mixed = twocode >= 2 in
@@ -46,8 +51,8 @@ let main_cases file =
       let md = if mode = 0 then None else Some orders in
       let sorted = List.for_all (fun (s, t) -> c04_sortedb s && c04_sortedb t) (d1 @ d2) in
       if not sorted then print_endline "UNSORTED-CASE | UNSORTED-CASE" else begin
-      let buildf d ig = if mixed then c04_build_mixed twos ig incself d md else c04_build two ig incself d md in
-      let specf ig d r = if mixed then c04_spec_rank_mixed ig twos incself d r else c04_spec_rank ig two incself d r in
+      let buildf d ig = if mixed then c04_build_mixed twos ig incself d md else c04_build_incs two ig incs d md in
+      let specf ig d r = if mixed then c04_spec_rank_mixed ig twos incself d r else c04_spec_rank ig two (List.nth incs (int_of_nat r)) d r in
       let one = Zpos XH in
       let w0 = c04_init two d1 one one in
       let pre = c04_is_synced w0 in
@@ -76,6 +81,8 @@ let main_cases file =
    Case line (integers):
      P two seed M   then M decompositions (for each rank: src set, dst set)
      NS  m_0 .. m_{NS-1}                    initial content D[m_j] of index-set pair (slot) j
+     (slot tokens of the construction and of op 1 are slot + 16 * communicator kind: 0 given, 1 duplicate, 2 reversed, 3 rotated;
+      hints given with a call are indexed by the rank in the communicator in force after the call)
      kind slot hintflag inc [hints]         construction: kind 0 RemoteIndices(S,T,comm,hints,inc); kind 1 RemoteIndices() +
                                             setIndexSets(S,T,comm[,hints]) + setIncludeSelf(inc);  hints = per rank: nn q*nn
      nops, then ops:  1 slot hintflag [hints] setIndexSets | 2 hints setNeighbours | 3 b setIncludeSelf | 4 free
@@ -99,42 +106,49 @@ let main_hist file =
       let slots = List.init ns (fun _ -> let mi = next () in { c04_sl_content = ds.(mi); c04_sl_srcSeq = one; c04_sl_dstSeq = one }) in
       let rhints () = List.init p (fun _ -> let n = next () in List.init n (fun _ -> nat_of_int (next ()))) in
       let ropt () = if next () = 1 then Some (rhints ()) else None in
-      let kind = next () in let slot = nat_of_int (next ()) in let hf = next () in let inc = next () = 1 in
+      let kind = next () in let slottok = next () in let hf = next () in let inc = next () = 1 in
+      (* slot tokens of the constructor and of setIndexSets: slot + 16 * communicator kind *)
+      let slot = nat_of_int (slottok land 15) in let ck0 = nat_of_int ((slottok lsr 4) land 3) in
       let hints0 = if hf = 1 then Some (rhints ()) else None in
       let np = nat_of_int p in
-      let buildf = c04_obj_buildf two in
-      let sbuildf d ig ic _ = List.init p (fun r -> C04_Ok (c04_spec_rank ig two ic d (nat_of_int r))) in
+      let buildf = c04_obj_buildf_comm two in
+      let sbuildf k d ig ic _ = let dv = c04_comm_view k ([], []) d in List.init p (fun r -> C04_Ok (c04_spec_rank ig two ic dv (nat_of_int r))) in
       let noh = List.init p (fun _ -> []) in
-      let y = ref { c04_sy_two = two; c04_sy_P = np; c04_sy_slots = slots;
-                    c04_sy_obj = (if kind = 0 then c04_obj_ctor slot (match hints0 with Some h -> h | None -> noh) inc else c04_obj_default np) } in
-      let h = ref { c04_hs_two = two; c04_hs_P = np; c04_hs_contents = List.map (fun s -> s.c04_sl_content) slots;
+      let y = ref { c04_sc_comm = ck0; c04_sc_sys = { c04_sy_two = two; c04_sy_P = np; c04_sy_slots = slots;
+                    c04_sy_obj = (if kind = 0 then c04_obj_ctor slot (match hints0 with Some h -> h | None -> noh) inc else c04_obj_default np) } } in
+      let h = ref ({ c04_hs_two = two; c04_hs_P = np; c04_hs_contents = List.map (fun s -> s.c04_sl_content) slots;
                     c04_hs_slot = (if kind = 0 then Some slot else None);
                     c04_hs_hints = (if kind = 0 then List.map c04_set_of (match hints0 with Some h -> h | None -> noh) else noh);
-                    c04_hs_incself = (if kind = 0 then inc else false); c04_hs_built = None; c04_hs_stale = false; c04_hs_map = None } in
+                    c04_hs_incself = (if kind = 0 then inc else false); c04_hs_built = None; c04_hs_stale = false; c04_hs_map = None }, ck0) in
       let mobs = Array.make p "" and sobs = Array.make p "" in
-      let apply op = y := c04_hstep buildf !y op; h := c04_hspec_step sbuildf !h op in
-      if kind = 1 then begin apply (C04_HSetIndexSets (slot, hints0)); apply (C04_HSetIncludeSelf inc) end;
+      let apply op = y := c04_hstepc buildf !y op; h := c04_hspec_stepc sbuildf !h op in
+      if kind = 1 then begin apply (C04_CSetIndexSets (slot, ck0, hints0)); apply (C04_COp (C04_HSetIncludeSelf inc)) end;
       let nops = next () in
       let gn l = String.concat "," (List.map (fun q -> string_of_int (int_of_nat q)) l) in
       let mpstr mp r = match mp with None -> "NOMAP" | Some l -> res_str (List.nth l r) in
       for _ = 1 to nops do
         match next () with
-        | 1 -> let s = nat_of_int (next ()) in let hi = ropt () in apply (C04_HSetIndexSets (s, hi))
-        | 2 -> let hi = rhints () in apply (C04_HSetNeighbours hi)
-        | 3 -> let b = next () = 1 in apply (C04_HSetIncludeSelf b)
-        | 4 -> apply C04_HFree
+        | 1 -> let st = next () in let hi = ropt () in
+               apply (C04_CSetIndexSets (nat_of_int (st land 15), nat_of_int ((st lsr 4) land 3), hi))
+        | 2 -> let hi = rhints () in apply (C04_COp (C04_HSetNeighbours hi))
+        | 3 -> let b = next () = 1 in apply (C04_COp (C04_HSetIncludeSelf b))
+        | 4 -> apply (C04_COp C04_HFree)
         | 5 -> let ig = next () = 1 in let _cmpinc = next () in
-               let mb = b01 (c04_obj_synced !y) in
-               let sb = (match (!h).c04_hs_built with None -> "?" | Some _ -> b01 (not (!h).c04_hs_stale)) in
-               apply (C04_HRebuild ig);
+               let mb = b01 (c04_obj_synced (!y).c04_sc_sys) in
+               let sb = (match (fst !h).c04_hs_built with None -> "?" | Some _ -> b01 (not (fst !h).c04_hs_stale)) in
+               apply (C04_COp (C04_HRebuild ig));
+               (* records are per process; maps and neighbourIds are indexed by the rank in the communicator in force *)
+               let crank k w = let rec f i = if i >= p then 0 else if int_of_nat (c04_comm_world k np (nat_of_int i)) = w then i else f (i + 1) in f 0 in
                for r = 0 to p - 1 do
-                 mobs.(r) <- mobs.(r) ^ Printf.sprintf " [b=%s s=%s gn=%s eq=1 %s]" mb (b01 (c04_obj_synced !y))
-                               (gn (List.nth (!y).c04_sy_obj.c04_ob_hints r)) (mpstr (!y).c04_sy_obj.c04_ob_map r);
+                 let ys = (!y).c04_sc_sys in
+                 let rm = crank (!y).c04_sc_comm r and rs = crank (snd !h) r in
+                 mobs.(r) <- mobs.(r) ^ Printf.sprintf " [b=%s s=%s gn=%s eq=1 %s]" mb (b01 (c04_obj_synced ys))
+                               (gn (List.nth ys.c04_sy_obj.c04_ob_hints rm)) (mpstr ys.c04_sy_obj.c04_ob_map rm);
                  sobs.(r) <- sobs.(r) ^ Printf.sprintf " [b=%s s=1 gn=%s eq=1 %s]" sb
-                               (gn (List.nth (!h).c04_hs_hints r)) (mpstr (!h).c04_hs_map r)
+                               (gn (List.nth (fst !h).c04_hs_hints rs)) (mpstr (fst !h).c04_hs_map rs)
                done
         | 6 -> let s = nat_of_int (next ()) in let ws = next () = 1 in let wd = next () = 1 in let mi = next () in
-               apply (C04_HResize (s, ws, wd, ds.(mi)))
+               apply (C04_COp (C04_HResize (s, ws, wd, ds.(mi))))
         | _ -> failwith "bad op"
       done;
       let join a = String.concat " ; " (List.init p (fun r -> Printf.sprintf "r%d%s" r a.(r))) in
